@@ -1009,6 +1009,21 @@ func (ex *Exec) fresh(st *State, name string, typ types.Type) Value {
 	if isPointerLike(typ) {
 		ex.knownRef(st, t)
 	}
+	if _, isSlice := types.Unalias(typ).Underlying().(*types.Slice); isSlice && t.Sort.Name == "Slice" {
+		// the backing array of a slice that comes from elsewhere exists already
+		ex.knownRef(st, ex.ts.SelectField(ex.tm.slice, 0, t))
+	}
+	if su, isT := ex.tm.isTargetStruct(typ); isT {
+		dt := ex.tm.structDT(typ)
+		for i := 0; i < su.NumFields(); i++ {
+			if _, isSlice := types.Unalias(su.Field(i).Type()).Underlying().(*types.Slice); isSlice {
+				f := ex.ts.SelectField(dt, i, t)
+				if f.Sort.Name == "Slice" {
+					ex.knownRef(st, ex.ts.SelectField(ex.tm.slice, 0, f))
+				}
+			}
+		}
+	}
 	return TV{t}
 }
 
